@@ -243,3 +243,25 @@ def r8(ctx):
     if total < 1:
         raise AnchorMissing('checked subtractions in corrupt_whitespace (found %d)' % total)
     ctx.ok(b0, '%d checked subtractions in corrupt_whitespace inspected' % total)
+
+
+@rule('C14', 'R-C14-9', 'T13 PAIR (one label per input character: the input is tokenized as plain text)',
+      'the whitespace-correction task tokenizes the corrupted input with ignore_special_tokens = true: the labels come from whitespace::operations, one '
+      'per character, so the text must not be parsed for special-token spellings (`<pad>` in the text would become ONE token against five labels)')
+def r9(ctx):
+    cands = [b for b in ctx.facts.bodies if b.file() == 'src/data/task.rs' and list(b.calls(r'whitespace::operations$'))]
+    if not cands:
+        raise AnchorMissing('the whitespace-correction task function in src/data/task.rs')
+    n = 0
+    for b in cands:
+        ctx.stats['bodies_inspected'].add(b.path)
+        for t in b.calls(r'Tokenize>::tokenize$|::tokenize$'):
+            if len(t.args) < 3:
+                continue
+            n += 1
+            v = core(sym(b, t.args[2]))
+            ctx.require(v[0] == 'const' and len(v) > 2 and v[2] == 1, b, 'plain-text-tokenization', 'the task input is tokenized with ignore_special_tokens = true (line %d)' % t.span['line'],
+                        'the task input is tokenized with ignore_special_tokens = %s (line %d): special-token spellings inside the text collapse into one token each, the token ids and the '
+                        'per-character labels no longer line up' % (show_in(b, v)[:20], t.span['line']), t.span)
+    if n < 1:
+        raise AnchorMissing('the tokenize call of the whitespace-correction task (found %d)' % n)
